@@ -117,8 +117,9 @@ theorem open_vinv (F : FS) (opts : Opts) (h : OpenOK eg F)
     have S0 : OpenState F' false { X with volatile := false } :=
       ⟨S.index, S.failed, S.pending, S.datOpen, rfl, S.verSeq, S.log, S.logOpen, S.pick, S.free, S.otherSlot,
        S.maxSeq, S.dats⟩
-    obtain ⟨_, h3⟩ := inv3_of_openState F' _ S0 E hE hlog hsv hR hmax
-    have hload := loadAll_of_openState F' true X S hR
+    have hXe : X.eager = eg := by rw [← hX]; exact openIndex_eager F true opts
+    obtain ⟨_, h3⟩ := inv3_of_openState F' _ S0 E hE hlog hsv hR hmax hXe
+    have hload := loadAll_of_openState F' true X S hR hXe
     have hopen : openDB F true true opts eg =
         { X with index := mapV (loadedRec X.fs) (diskIndex F'), dataSeq := u32 (X.maxSeq + 1) } := by
       unfold openDB
@@ -155,7 +156,7 @@ theorem ghost_get (db : DB) (hc : Cached db) (P : List Key) (k : Key) :
 
 /-- one operation (not a reopen) on an open volatile store: the invariant stays, the values follow the map, and no
     file operation happens -/
-theorem vstep_vinv (db : DB) (h : VInv db) (op : Op) (ok : OpOK eg op) (fits : OpFits db op) :
+theorem vstep_vinv (db : DB) (h : VInv db) (op : Op) (ok : OpOK db.eager op) (fits : OpFits db op) :
     VInv (step db op) ∧ (∀ k, vals (step db op) k = vstep (vals db) op k) ∧
     (step db op).effs = db.effs ∧ (step db op).fs = db.fs := by
   obtain ⟨P, h3, hP⟩ := h.gh
@@ -201,7 +202,7 @@ theorem vstep_vinv (db : DB) (h : VInv db) (op : Op) (ok : OpOK eg op) (fits : O
       unfold afterChange
       rw [hmp]
       simp only [h.vol, ↓reduceIte]
-      have hM := putExt_addPending_inv (ghost db P) inv k v 0 a b (by decide) (by decide)
+      have hM := putExt_addPending_inv (ghost db P) inv k v 0 a b (by decide) (zeroFlags_ok _)
       obtain ⟨e', n', m', hmp'⟩ := memput_same (ghost db P) k (newRec v 0)
       rw [addPending_same, hmp'] at hM
       refine ⟨rfl, pendingAdd P k, ⟨?_, inv2_same i2 rfl rfl rfl rfl⟩, fun hn => by simp at hn⟩
@@ -376,10 +377,11 @@ theorem vstep_vinv (db : DB) (h : VInv db) (op : Op) (ok : OpOK eg op) (fits : O
 /-- what Close leaves, in a form shared by both modes -/
 structure Closed (db : DB) : Prop where
   failed : (close db).failed = none
-  ok : OpenOK eg (close db).fs
+  ok : OpenOK db.eager (close db).fs
   vals : ∀ k, diskValue (close db).fs k = vals db k
   atomic : ∃ es, (close db).effs = db.effs ++ es ∧ (close db).fs = db.fs.applyAll (es.map (·.2)) ∧
-    Atomic db.fs (es.map (·.2)) (C19.vals db)
+    Atomic db.eager db.fs (es.map (·.2)) (C19.vals db)
+  eager : (close db).eager = db.eager
 
 /-- Close of a non-volatile store is a sync -/
 theorem nclose (db : DB) (h : Inv3 db) (hs : SizeOK db) (hd : DFits db) : Closed db := by
@@ -391,8 +393,8 @@ theorem nclose (db : DB) (h : Inv3 db) (hs : SizeOK db) (hd : DFits db) : Closed
     simp only [inv.nv, Bool.false_eq_true, ↓reduceIte, sinv.cached.1]
     exact ⟨trivial, trivial, trivial⟩
   obtain ⟨es1, x1, y1, z1⟩ := sync_atomic db h hs hd
-  refine ⟨hclose.1, by rw [hclose.2.1]; exact openOK_of_inv _ sinv, fun k => ?_,
-    es1, by rw [hclose.2.2]; exact x1, by rw [hclose.2.1]; exact y1, z1⟩
+  refine ⟨hclose.1, by rw [hclose.2.1, ← (sync_cached db inv.cached).eager]; exact openOK_of_inv _ sinv, fun k => ?_,
+    ⟨es1, by rw [hclose.2.2]; exact x1, by rw [hclose.2.1]; exact y1, z1⟩, close_eager db inv.cached⟩
   rw [hclose.2.1, diskValue_of_inv _ sinv spe k]
   unfold C19.vals
   rw [sabs]
@@ -415,7 +417,8 @@ theorem vclose (db : DB) (h : VInv db) (hsm : 4 + (valsOf db.index).flatten.leng
     have f3 : (close db).effs = db.effs := by rw [hcl]
     refine ⟨f1, by rw [f2]; exact openOK_of_inv (ghost db []) h3.inv,
       fun k => by rw [f2]; exact diskValue_of_inv (ghost db []) h3.inv rfl k,
-      [], by rw [f3]; simp, by rw [f2]; rfl, atomic_nil _ _ (openOK_of_inv (ghost db []) h3.inv)⟩
+      ⟨[], by rw [f3]; simp, by rw [f2]; rfl, atomic_nil _ _ (openOK_of_inv (ghost db []) h3.inv)⟩,
+      close_eager db hc⟩
   | true =>
     have hk := defrag_cached db hc
     have hcl : (close db).failed = none ∧ (close db).fs = (defrag db).fs ∧ (close db).effs = (defrag db).effs := by
@@ -430,12 +433,12 @@ theorem vclose (db : DB) (h : VInv db) (hsm : 4 + (valsOf db.index).flatten.leng
     obtain ⟨es', he1, he2⟩ := replays_defrag db
     have hes : es' = es := List.append_cancel_left (he1.symm.trans he)
     rw [hes] at he2
-    have hok : OpenOK eg (defrag db).fs := by
+    have hok : OpenOK db.eager (defrag db).fs := by
       have := (hA (es.map (·.2)).length).1
       rw [List.take_length, ← he2] at this
       exact this
-    refine ⟨hcl.1, by rw [hcl.2.1]; exact hok, fun k => ?_, es, by rw [hcl.2.2]; exact he,
-      by rw [hcl.2.1]; exact he2, hA⟩
+    refine ⟨hcl.1, by rw [hcl.2.1]; exact hok, fun k => ?_, ⟨es, by rw [hcl.2.2]; exact he,
+      by rw [hcl.2.1]; exact he2, hA⟩, close_eager db hc⟩
     rw [hcl.2.1]
     obtain ⟨_, _, o3⟩ := open_after_defrag db hc hready.wf false {}
     have o4 := (open_readable (defrag db).fs hok.readable false {}).2 k
@@ -451,34 +454,34 @@ theorem reopen_from (db : DB) (c : Closed db) (vol : Bool) (opts : Opts)
     (∀ k, vals (step db (.reopen vol true opts)) k = vals db k) ∧
     (∀ k, diskValue (step db (.reopen vol true opts)).fs k = vals db k) ∧
     ∃ es, (step db (.reopen vol true opts)).effs = db.effs ++ es ∧
-      Atomic db.fs (es.map (·.2)) (vals db) := by
+      Atomic db.eager db.fs (es.map (·.2)) (vals db) := by
   have hstep : step db (.reopen vol true opts) =
-      { openDB (close db).fs vol true opts eg with
-        effs := (close db).effs ++ (openDB (close db).fs vol true opts eg).effs } := by
+      { openDB (close db).fs vol true opts db.eager with
+        effs := (close db).effs ++ (openDB (close db).fs vol true opts db.eager).effs } := by
     show (match (close db).failed with
       | some _ => close db
-      | none => { openDB (close db).fs vol true opts eg with
-                  effs := (close db).effs ++ (openDB (close db).fs vol true opts eg).effs }) = _
-    rw [c.failed]
+      | none => { openDB (close db).fs vol true opts (close db).eager with
+                  effs := (close db).effs ++ (openDB (close db).fs vol true opts (close db).eager).effs }) = _
+    rw [c.failed, c.eager]
   obtain ⟨es1, x1, y1, z1⟩ := c.atomic
-  have hval : ∀ k, vals (openDB (close db).fs vol true opts eg) k = vals db k := by
+  have hval : ∀ k, vals (openDB (close db).fs vol true opts db.eager) k = vals db k := by
     intro k
     rw [vals_eq, (open_readable _ c.ok.readable vol opts).2 k]
     exact c.vals k
   have hT : ∀ n, Trim (close db).fs ((close db).fs.applyAll
-      (((openDB (close db).fs vol true opts eg).effs.map (·.2)).take n)) := fun n =>
+      (((openDB (close db).fs vol true opts db.eager).effs.map (·.2)).take n)) := fun n =>
     (Trim.refl (close db).fs).applyAll _ (fun e he => by
       obtain ⟨x, hx, rfl⟩ := List.mem_map.mp (List.mem_of_mem_take he)
       exact open_effs_trim _ _ _ _ x hx)
   rw [hstep]
-  refine ⟨?_, hval, fun k => ?_, es1 ++ (openDB (close db).fs vol true opts eg).effs,
+  refine ⟨?_, hval, fun k => ?_, es1 ++ (openDB (close db).fs vol true opts db.eager).effs,
     by show (close db).effs ++ _ = _; rw [x1, List.append_assoc], ?_⟩
   · cases vol with
     | false => exact Or.inl ⟨rfl, inv3_effs _ (open_inv3g _ opts c.ok hmax).1 _⟩
     | true => exact Or.inr ⟨rfl, vinv_effs (open_vinv _ opts c.ok hmax).1 _⟩
-  · show diskValue (openDB (close db).fs vol true opts eg).fs k = _
+  · show diskValue (openDB (close db).fs vol true opts db.eager).fs k = _
     rw [openDB_replays]
-    have T := hT ((openDB (close db).fs vol true opts eg).effs.map (·.2)).length
+    have T := hT ((openDB (close db).fs vol true opts db.eager).effs.map (·.2)).length
     rw [List.take_length] at T
     rw [(T.ok c.ok).2 k]
     exact c.vals k
@@ -511,7 +514,7 @@ theorem SInv.nodup {db : DB} (h : SInv db) : (Keys db.index).Nodup := by
     exact h3.inv.nodup
 
 /-- operations of the sub-language, both modes: no NO_CACHE flag; Close + NewDBExt(any mode, LoadData, any options) -/
-def OpOK3 (e : Bool) : Op → Prop
+def OpOK3 (eg : Bool) : Op → Prop
   | .reopen _ load _ => load = true
   | op => OpOK eg op
 
@@ -539,14 +542,15 @@ structure StepOK (db : DB) (op : Op) : Prop where
   inv : SInv (step db op)
   mode : (step db op).volatile = modeAfter db.volatile op
   vals : ∀ k, vals (step db op) k = vstep (C19.vals db) op k
-  atomic : ∃ es, (step db op).effs = db.effs ++ es ∧ Atomic db.fs (es.map (·.2)) (C19.vals (step db op))
+  atomic : ∃ es, (step db op).effs = db.effs ++ es ∧ Atomic db.eager db.fs (es.map (·.2)) (C19.vals (step db op))
   dur : (∀ k, diskValue (step db op).fs k = diskValue db.fs k) ∨
         (∀ k, diskValue (step db op).fs k = C19.vals (step db op) k)
   must : mustSyncV db.volatile op = true → ∀ k, diskValue (step db op).fs k = C19.vals (step db op) k
+  eager : (step db op).eager = db.eager
 
-theorem stepOK_nv (db : DB) (h : Inv3 db) (op : Op) (hnr : ∀ a b c, op ≠ .reopen a b c) (ok : OpOK eg op)
+theorem stepOK_nv (db : DB) (h : Inv3 db) (op : Op) (hnr : ∀ a b c, op ≠ .reopen a b c) (ok : OpOK db.eager op)
     (fits : OpFits db op) (hd : DFits (preSync db op)) : StepOK db op := by
-  have ok2 : OpOK2 eg op := by
+  have ok2 : OpOK2 db.eager op := by
     cases op <;> first | exact ok | exact absurd rfl (hnr _ _ _)
   have fits2 : OpFits2 db op := by
     cases op <;> first | exact fits | exact absurd rfl (hnr _ _ _)
@@ -556,7 +560,7 @@ theorem stepOK_nv (db : DB) (h : Inv3 db) (op : Op) (hnr : ∀ a b c, op ≠ .re
   rw [List.take_length, ← e2] at hfin
   have hm : modeAfter db.volatile op = db.volatile := by
     cases op <;> first | rfl | exact absurd rfl (hnr _ _ _)
-  refine ⟨Or.inl h1, by rw [hm, h1.inv.nv, h.inv.nv], hv, ⟨es, e1, A⟩, hfin, fun hms k => ?_⟩
+  refine ⟨Or.inl h1, by rw [hm, h1.inv.nv, h.inv.nv], hv, ⟨es, e1, A⟩, hfin, fun hms k => ?_, step_eager2 db h op ok2 fits2⟩
   have hms' : mustSync op = true := by
     rw [h.inv.nv] at hms
     cases op with
@@ -572,14 +576,14 @@ theorem stepOK_nv (db : DB) (h : Inv3 db) (op : Op) (hnr : ∀ a b c, op ≠ .re
     | noSync => simp [mustSyncV] at hms
   exact diskValue_of_inv _ h1.inv (mustSync_pending db h op ok2 fits2 hms') k
 
-theorem stepOK_v (db : DB) (h : VInv db) (op : Op) (hnr : ∀ a b c, op ≠ .reopen a b c) (ok : OpOK eg op)
+theorem stepOK_v (db : DB) (h : VInv db) (op : Op) (hnr : ∀ a b c, op ≠ .reopen a b c) (ok : OpOK db.eager op)
     (fits : OpFits db op) : StepOK db op := by
   obtain ⟨h1, hv, he, hf⟩ := vstep_vinv db h op ok fits
   obtain ⟨P, h3, _⟩ := h.gh
   have hm : modeAfter db.volatile op = db.volatile := by
     cases op <;> first | rfl | exact absurd rfl (hnr _ _ _)
   refine ⟨Or.inr h1, by rw [hm, h1.vol, h.vol], hv, ⟨[], by rw [he]; simp, atomic_nil _ _ (openOK_of_inv (ghost db P) h3.inv)⟩,
-    Or.inl (fun k => by rw [hf]), fun hms => ?_⟩
+    Or.inl (fun k => by rw [hf]), fun hms => ?_, step_eager db op h.cached ok⟩
   rw [h.vol] at hms
   cases op with
   | defrag f => cases f <;> simp [mustSyncV] at hms
@@ -598,8 +602,16 @@ theorem stepOK_reopen (db : DB) (c : Closed db) (vol : Bool) (opts : Opts)
     StepOK db (.reopen vol true opts) := by
   obtain ⟨hi, hv, hdv, es, he, hA⟩ := reopen_from db c vol opts hmax
   have hvf : ∀ k, vals (step db (.reopen vol true opts)) k = vstep (vals db) (.reopen vol true opts) k := hv
+  have hee : (step db (.reopen vol true opts)).eager = db.eager := by
+    show (match (close db).failed with
+      | some _ => close db
+      | none => { openDB (close db).fs vol true opts (close db).eager with
+                  effs := (close db).effs ++ (openDB (close db).fs vol true opts (close db).eager).effs }).eager = _
+    rw [c.failed]
+    show (openDB (close db).fs vol true opts (close db).eager).eager = _
+    rw [openDB_eager, c.eager]
   refine ⟨?_, ?_, hvf, ⟨es, he, hA.congr (fun k => (hv k).symm)⟩, Or.inr (fun k => (hdv k).trans (hv k).symm),
-    fun _ k => (hdv k).trans (hv k).symm⟩
+    fun _ k => (hdv k).trans (hv k).symm, hee⟩
   · rcases hi with ⟨_, h⟩ | ⟨_, h⟩
     · exact Or.inl h
     · exact Or.inr h
@@ -609,7 +621,7 @@ theorem stepOK_reopen (db : DB) (c : Closed db) (vol : Bool) (opts : Opts)
     · exact h.vol
 
 /-- every operation of the sub-language, in either mode -/
-theorem stepOK (db : DB) (h : SInv db) (op : Op) (ok : OpOK3 eg op) (fits : OpFits3 db op)
+theorem stepOK (db : DB) (h : SInv db) (op : Op) (ok : OpOK3 db.eager op) (fits : OpFits3 db op)
     (hd : DFits (preSync db op)) : StepOK db op := by
   rcases h with h | h
   · cases op with
@@ -659,7 +671,7 @@ def DurOK : Bool → (Key → Option Bytes) → (Key → Option Bytes) → List 
   | _, m, d, .crash o _ _ vol _ :: t, m', d' =>
       DurOK vol d d t m' d' ∨ DurOK vol (vstep m o) (vstep m o) t m' d'
 
-def HOK (e : Bool) (i : HItem) : Prop := OpOK3 eg (itemOp i)
+def HOK (eg : Bool) (i : HItem) : Prop := OpOK3 eg (itemOp i)
 
 /-- side conditions along a history: those of every operation (`OpFits3`), the bounds of the crash analysis
     (`DFits`: data-file numbers do not wrap, index snapshot at most the 1 MiB bufio buffer) and, for every recovery,
@@ -715,7 +727,7 @@ theorem durOK_origin (H : List HItem) (vol : Bool) (m d m' d' : Key → Option B
 
 /-- EVERY history of operations (both modes) and crashes (anywhere inside any operation, and inside any number of
     recovery attempts) keeps the invariants and follows the durable-map specification. -/
-theorem hrun_dur (H : List HItem) (db : DB) (h : SInv db) (ok : ∀ i ∈ H, HOK eg i) (fits : HFits db H) :
+theorem hrun_dur (H : List HItem) (db : DB) (h : SInv db) (ok : ∀ i ∈ H, HOK db.eager i) (fits : HFits db H) :
     SInv (hrun db H) ∧
     DurOK db.volatile (vals db) (diskValue db.fs) H (vals (hrun db H)) (diskValue (hrun db H).fs) := by
   induction H generalizing db with
@@ -723,11 +735,11 @@ theorem hrun_dur (H : List HItem) (db : DB) (h : SInv db) (ok : ∀ i ∈ H, HOK
   | cons i t ih =>
     cases i with
     | op o =>
-      have oko : OpOK3 eg o := ok (.op o) List.mem_cons_self
+      have oko : OpOK3 db.eager o := ok (.op o) List.mem_cons_self
       obtain ⟨f1, f2, f3⟩ := fits
       have S := stepOK db h o oko f1 f2
       have hv' : vals (step db o) = vstep (vals db) o := funext S.vals
-      obtain ⟨i1, i2⟩ := ih (step db o) S.inv (fun x hx => ok x (List.mem_cons_of_mem _ hx)) f3
+      obtain ⟨i1, i2⟩ := ih (step db o) S.inv (fun x hx => by rw [S.eager]; exact ok x (List.mem_cons_of_mem _ hx)) f3
       refine ⟨i1, ?_⟩
       rw [S.mode] at i2
       show DurOK (modeAfter db.volatile o) (vstep (vals db) o) (vstep (vals db) o) t _ _ ∨
@@ -749,7 +761,7 @@ theorem hrun_dur (H : List HItem) (db : DB) (h : SInv db) (ok : ∀ i ∈ H, HOK
           exact i2
         · exact Or.inl (hnew hn)
     | crash o n ms vol opts =>
-      have oko : OpOK3 eg o := ok (.crash o n ms vol opts) List.mem_cons_self
+      have oko : OpOK3 db.eager o := ok (.crash o n ms vol opts) List.mem_cons_self
       obtain ⟨f1, f2, f3, f4⟩ := fits
       have S := stepOK db h o oko f1 f2
       obtain ⟨es, e1, A⟩ := S.atomic
@@ -774,8 +786,9 @@ theorem hrun_dur (H : List HItem) (db : DB) (h : SInv db) (ok : ∀ i ∈ H, HOK
           subst hP0
           exact ⟨Or.inr hV, hV.vol, hvv, fun k => diskValue_of_inv (ghost _ []) h3.inv rfl k⟩
       obtain ⟨hsi, hmode, hval, hdur⟩ := hrec
+      have hce : (hstep db (.crash o n ms vol opts)).eager = db.eager := openDB_eager _ _ _ _
       obtain ⟨i1, i2⟩ := ih (hstep db (.crash o n ms vol opts)) hsi
-        (fun x hx => ok x (List.mem_cons_of_mem _ hx)) f4
+        (fun x hx => by rw [hce]; exact ok x (List.mem_cons_of_mem _ hx)) f4
       refine ⟨i1, ?_⟩
       rw [hmode] at i2
       show DurOK vol (diskValue db.fs) (diskValue db.fs) t _ _ ∨
